@@ -14,7 +14,7 @@ common.import_repo()
 from numba_scfg.core.datastructures import basic_block as bb  # noqa: E402
 
 LEVEL = "proof"
-EXTRA_PROPS_FILES = ["Scfg/Props/C16Iter.lean", "Scfg/Props/C16Nodup.lean", "Scfg/Props/C16Unique.lean", "Scfg/Props/C16Dedup.lean", "Scfg/Props/C16Fuel.lean"]
+EXTRA_PROPS_FILES = ["Scfg/Props/C16Iter.lean", "Scfg/Props/C16Nodup.lean", "Scfg/Props/C16Unique.lean", "Scfg/Props/C16Dedup.lean", "Scfg/Props/C16Fuel.lean", "Scfg/Props/C16ViewFuel.lean"]
 
 
 def cj(xs):
